@@ -22,6 +22,7 @@ package dot
 
 import (
 	"fmt"
+	"html"
 	"reflect"
 )
 
@@ -426,19 +427,23 @@ func (g *Group) String() string {
 
 // Attributes composes and returns a string of the Result node's attributes.
 func (r *Result) Attributes() string {
+	// The label is an HTML-like string: type names such as "<-chan int" and
+	// user-chosen names must be escaped or the output is not valid DOT.
+	t := html.EscapeString(r.Type.String())
 	switch {
 	case r.Name != "":
-		return fmt.Sprintf(`label=<%v<BR /><FONT POINT-SIZE="10">Name: %v</FONT>>`, r.Type, r.Name)
+		return fmt.Sprintf(`label=<%v<BR /><FONT POINT-SIZE="10">Name: %v</FONT>>`, t, html.EscapeString(r.Name))
 	case r.Group != "":
-		return fmt.Sprintf(`label=<%v<BR /><FONT POINT-SIZE="10">Group: %v</FONT>>`, r.Type, r.Group)
+		return fmt.Sprintf(`label=<%v<BR /><FONT POINT-SIZE="10">Group: %v</FONT>>`, t, html.EscapeString(r.Group))
 	default:
-		return fmt.Sprintf(`label=<%v>`, r.Type)
+		return fmt.Sprintf(`label=<%v>`, t)
 	}
 }
 
 // Attributes composes and returns a string of the Group node's attributes.
 func (g *Group) Attributes() string {
-	attr := fmt.Sprintf(`shape=diamond label=<%v<BR /><FONT POINT-SIZE="10">Group: %v</FONT>>`, g.Type, g.Name)
+	attr := fmt.Sprintf(`shape=diamond label=<%v<BR /><FONT POINT-SIZE="10">Group: %v</FONT>>`,
+		html.EscapeString(g.Type.String()), html.EscapeString(g.Name))
 	if g.ErrorType != noError {
 		attr += " color=" + g.ErrorType.Color()
 	}
